@@ -7,6 +7,7 @@ pub mod c04;
 pub mod c05;
 pub mod c09;
 pub mod c10;
+pub mod c12;
 pub mod c15;
 
 use crate::evidence::Shard;
@@ -21,6 +22,7 @@ pub fn plan_for(id: &str) -> Option<Plan> {
         "C05" => c05::plan(),
         "C09" => c09::plan(),
         "C10" => c10::plan(),
+        "C12" => c12::plan(),
         "C15" => c15::plan(),
         _ => return None,
     })
@@ -35,6 +37,7 @@ pub fn shard_for(id: &str, ctx: &Ctx) -> Option<Shard> {
         "C05" => c05::shard(ctx),
         "C09" => c09::shard(ctx),
         "C10" => c10::shard(ctx),
+        "C12" => c12::shard(ctx),
         "C15" => c15::shard(ctx),
         _ => return None,
     })
